@@ -83,7 +83,13 @@ def check_case(case, ctx):
     except Exception as e:
         return [f"whip raised {type(e).__name__}: {e} (argv {argv})"]
     if not os.path.isfile(outfile):
-        return [f"whip did not write {outfile} (cwd holds {sorted(os.listdir('.'))})"]
+        # the default file name is documentation, not part of the property: accept any single new .npy file in the cwd
+        npy = [n for n in os.listdir(".") if n.endswith(".npy")]
+        if case["default_out"] and len(npy) == 1:
+            ctx.label("default-output-renamed")
+            outfile = npy[0]
+        else:
+            return [f"whip did not write {outfile} (cwd holds {sorted(os.listdir('.'))})"]
     got = np.load(outfile)
     exp = plot.covering(L, case["field"]).astype(case["dtype"])
     v = []
